@@ -267,7 +267,7 @@ const (
 	// Track first and last subprogram specific flag, used by diSPFlagsString in
 	// ir/metadata/helper.go.
 	DISPFlagFirst = DISPFlagVirtual
-	DISPFlagLast  = DISPFlagMainSubprogram
+	DISPFlagLast  = DISPFlagObjCDirect
 )
 
 //go:generate stringer -linecomment -type DLLStorageClass
